@@ -121,10 +121,13 @@ class AppRun:
     CALLBACKS = ["on_open", "on_reconnect", "on_message", "on_data", "on_error", "on_close", "on_ping", "on_pong", "on_cont_message"]
 
     def __init__(self, plan, url="ws://app.test/", callbacks=None, raising=None, app_kwargs=None, hooks=None, last_repeats=True, via_proxy=False,
-                 assign="ctor"):
+                 assign="ctor", callable_kind="function"):
         # assign: how the application installs its callbacks - "ctor" (constructor arguments), "after-init" (attributes set on the
         # object before run_forever) or "in-on_open" (all but on_open/on_cont_message set from inside on_open, while running)
         self.assign = assign
+        # callable_kind: what sort of callable the application registers - a plain function, a functools.partial, an instance with
+        # __call__, a bound method (the last three have no __name__ / a different repr)
+        self.callable_kind = callable_kind
         # ambient conditions for application-level runs (see harness.ambient): TLS transport instead of plain, another way of
         # installing the callbacks, trace logging - none of which changes what the application is told
         self.ambient = None
@@ -240,13 +243,30 @@ class AppRun:
                     raise r()
         return cb
 
+    def _wrap_callable(self, fn):
+        kind = self.callable_kind
+        if kind == "partial":
+            import functools
+            return functools.partial(fn)
+        if kind == "instance":
+            class Handler:
+                def __call__(self_, *a):
+                    return fn(*a)
+            return Handler()
+        if kind == "bound-method":
+            class Owner:
+                def handle(self_, *a):
+                    return fn(*a)
+            return Owner().handle
+        return fn
+
     def build(self):
         W = H.ws()
         shim.set_network(self.network)
         if self.ambient is not None:
             import logging
             W.enableTrace(bool(self.ambient["trace"]), handler=logging.NullHandler())
-        cbs = {n: self._cb(n) for n in self.enabled}
+        cbs = {n: self._wrap_callable(self._cb(n)) for n in self.enabled}
         if self.assign == "ctor":
             kw = dict(cbs)
             kw.update(self.app_kwargs)
